@@ -209,26 +209,27 @@ Definition flag_step (st : bool * bool) (e : revent) : bool * bool :=
   end.
 Definition flags_after (st : bool * bool) (evs : list revent) : bool * bool := fold_left flag_step evs st.
 
+Definition prep_step (q : bool) (e : revent) : bool := match e with RC TgPrepare => true | _ => q end.
+Definition prep_after (q : bool) (evs : list revent) : bool := fold_left prep_step evs q.
+
 Lemma recv_all_spec : forall evs cm p,
   recv_all cm p evs =
   (match cm with Some m => Some (set_from_list m (frames evs) false) | None => None end,
    mkP (set_from_list (bel p) (frames evs) false)
-       (fst (flags_after (need_set p, in_txn p) evs)) (snd (flags_after (need_set p, in_txn p) evs))).
+       (fst (flags_after (need_set p, in_txn p) evs)) (snd (flags_after (need_set p, in_txn p) evs))
+       (prep_after (need_prep p) evs)).
 Proof.
   induction evs as [|e evs IH]; intros cm p.
   - cbn. destruct cm, p; reflexivity.
-  - unfold recv_all in *. cbn [fold_left fst snd]. 
+  - unfold recv_all in *. cbn [fold_left fst snd].
     destruct (on_event cm p e) as [cm1 p1] eqn:E. rewrite IH.
-    unfold flags_after. cbn [fold_left].
-    destruct e as [k v|t| |t]; cbn [on_event on_param_status] in E.
-    + inversion E; subst. cbn [frames flat_map app bel need_set in_txn flag_step].
-      change (frames evs) with (flat_map (fun e => match e with RS k v => [(k, v)] | _ => [] end) evs).
-      destruct cm; unfold set_from_list; cbn [fold_left fst snd]; reflexivity.
-    + destruct t; inversion E; subst; cbn [frames flat_map app bel need_set in_txn flag_step fst snd];
-        destruct cm1; reflexivity.
-    + inversion E; subst. cbn [frames flat_map app flag_step]. destruct cm1, p1; reflexivity.
-    + inversion E; subst. cbn [frames flat_map app bel need_set in_txn flag_step fst snd].
-      destruct cm1; reflexivity.
+    unfold flags_after, prep_after. cbn [fold_left].
+    destruct e as [k v|t| |t]; [|destruct t| |]; cbn [on_event on_param_status] in E; inversion E; subst;
+      cbn [frames flat_map app bel need_set in_txn need_prep flag_step prep_step fst snd];
+      try (change (frames evs) with (flat_map (fun e => match e with RS k v => [(k, v)] | _ => [] end) evs));
+      try (destruct cm; unfold set_from_list; cbn [fold_left fst snd]; reflexivity);
+      try (destruct cm1; reflexivity);
+      try (destruct cm1, p1; reflexivity).
 Qed.
 
 (** ** Invariants *)
@@ -375,6 +376,9 @@ Section WithParams.
       destruct (bi_ti b HB Et) as [Hl Hs]. auto.
     - (* SSelect *) destruct (b_txn b); cbn [fst]; exact HB.
     - (* SFail *) destruct (b_txn b) eqn:Et; cbn [fst]; try exact HB; binv_fields.
+    - (* SNoop *) destruct (b_txn b); cbn [fst]; exact HB.
+    - (* SDiscardAll *) destruct (b_txn b) eqn:Et; cbn [fst]; try exact HB; binv_fields.
+      destruct (bi_ti b HB Et) as [Hl Hs]. auto.
   Qed.
 
   (** *** what one statement does to a map that agrees with the backend *)
@@ -558,6 +562,14 @@ Section WithParams.
     - (* SFail *) case_eq (b_txn b); intros Et; unfold fail; rewrite ?Et;
         cbn [fst snd flags_after fold_left flag_step b_txn b_sess b_snap]; auto.
       split; [discriminate|]. auto.
+    - (* SNoop *) case_eq (b_txn b); intros Et; cbn [fst snd flags_after fold_left]; auto;
+        destruct t; cbn [flag_step fst snd]; auto;
+        try (split; [auto|]; split; intros Hn; apply orb_false_iff in Hn; destruct Hn as [Hn _]; auto; fail);
+        try (split; [auto|]; split; auto; fail).
+    - (* SDiscardAll *) case_eq (b_txn b); intros Et; try rewrite flags_done; unfold done, fail; rewrite ?Et;
+        cbn [fst snd flags_after fold_left flag_step b_txn b_sess b_snap]; auto.
+      + split; [auto|]. split; [|auto]. intros Hn. destruct (Hcl Hn) as [H1 H2]. split; auto. apply clean_bdef.
+      + split; [discriminate|]. auto.
   Qed.
 
   Lemma msg_oos_cons : forall b s r,
@@ -640,7 +652,8 @@ Section WithParams.
     mkS (fst (be_query valid bdef (truth sv) ss))
         (mkP (set_from_list (bel (pg sv)) (frames (snd (be_query valid bdef (truth sv) ss))) false)
              (fst (flags_after (flags (pg sv)) (snd (be_query valid bdef (truth sv) ss))))
-             (snd (flags_after (flags (pg sv)) (snd (be_query valid bdef (truth sv) ss))))).
+             (snd (flags_after (flags (pg sv)) (snd (be_query valid bdef (truth sv) ss))))
+             (prep_after (need_prep (pg sv)) (snd (be_query valid bdef (truth sv) ss)))).
   Proof.
     intros. unfold srv_query. destruct (be_query valid bdef (truth sv) ss) as [b' evs] eqn:E.
     rewrite recv_all_spec. reflexivity.
@@ -684,6 +697,25 @@ Section WithParams.
     destruct (has_err (snd (be_stmt valid bdef b s))); reflexivity.
   Qed.
 
+  Lemma be_msg_cleanup : forall b ra da, b_txn b = TI -> b_loc b = [] ->
+    fst (be_msg valid bdef b (cleanup_stmts ra da)) = mkB (if ra then bdef else b_sess b) [] (b_snap b) TI.
+  Proof.
+    intros [se lo sn tx] ra da Ht Hl. cbn [b_txn b_loc] in *. subst tx lo.
+    destruct ra, da; unfold cleanup_stmts; cbn [app];
+      repeat (rewrite be_msg_cons; cbn [be_stmt b_txn b_sess b_loc b_snap has_err existsb is_re snd fst orb];
+              rewrite ?has_err_done; unfold done; cbn [fst snd b_txn b_sess b_loc b_snap]);
+      cbn [be_msg fst]; reflexivity.
+  Qed.
+
+  Lemma msg_oos_cleanup : forall b ra da, msg_oos valid bdef b (cleanup_stmts ra da) = false.
+  Proof.
+    intros b ra da. unfold cleanup_stmts.
+    assert (H : forall ss b0, (forall s, In s ss -> forall b1, stmt_oos b1 s = false) -> msg_oos valid bdef b0 ss = false).
+    { induction ss as [|s ss IH]; intros b0 Hs; auto. rewrite msg_oos_cons. rewrite (Hs s (or_introl eq_refl)). cbn [orb].
+      destruct (has_err (snd (be_stmt valid bdef b0 s))); auto. apply IH. intros. apply Hs. right. auto. }
+    apply H. intros s Hin b1. destruct ra, da; cbn [app In] in Hin; intuition; subst; reflexivity.
+  Qed.
+
   (** checkin_cleanup leaves the connection idle, in agreement with pgcat's belief, and (if the
       flags were sound) clean *)
   Lemma checkin_lemma : forall sv, SrvInv sv -> Quies (truth sv) (flags (pg sv)) ->
@@ -713,24 +745,28 @@ Section WithParams.
       - split; auto. unfold Quies in HQ. unfold flags in HQ. cbn [snd] in HQ. rewrite Ei in HQ.
         destruct (b_txn (truth sv)) eqn:Et; try discriminate. auto. }
     destruct H1 as (HI1 & Ht1 & Hi1 & Hc1).
-    destruct (need_set (pg s1)) eqn:En; cbn [fst].
-    - (* RESET ALL *)
-      pose proof (srv_query_inv s1 [SResetAll] HI1) as HI2.
+    destruct (need_set (pg s1) || need_prep (pg s1)) eqn:En; cbn [fst].
+    - (* RESET ROLE; [RESET ALL;] [DEALLOCATE ALL;] *)
+      set (cs := cleanup_stmts (need_set (pg s1)) (need_prep (pg s1))).
+      pose proof (srv_query_inv s1 cs HI1) as HI2.
       rewrite srv_query_spec in *. cbn [truth pg bel need_set in_txn] in *.
-      assert (Hb2 : fst (be_query valid bdef (truth s1) [SResetAll]) = mkB bdef [] (b_snap (truth s1)) TI).
-      { rewrite be_query_eq. cbn [fst]. rewrite be_msg_one. cbn [be_stmt]. rewrite Ht1. reflexivity. }
+      pose proof HI1 as [HB1 _]. destruct (bi_ti _ HB1 Ht1) as [Hl1 Hs1].
+      assert (Hb2 : fst (be_query valid bdef (truth s1) cs) =
+                    mkB (if need_set (pg s1) then bdef else b_sess (truth s1)) [] (b_snap (truth s1)) TI).
+      { rewrite be_query_eq. cbn [fst]. apply be_msg_cleanup; auto. }
       destruct HI2 as [HB2 Hbel2]. cbn [truth pg bel] in *.
       split; [constructor; cbn [truth pg bel]; auto|].
       split.
       + constructor; cbn [truth pg need_set in_txn]; auto.
         * rewrite Hb2. reflexivity.
-        * destruct HI1 as [HB1 _].
-          assert (Hin1 : InOK (truth s1) (need_set (pg s1), in_txn (pg s1))).
+        * assert (Hin1 : InOK (truth s1) (need_set (pg s1), in_txn (pg s1))).
           { intros _. exact Hi1. }
-          pose proof (be_query_quies [SResetAll] (truth s1) (need_set (pg s1)) (in_txn (pg s1)) HB1 Hin1) as Hq.
+          pose proof (be_query_quies cs (truth s1) (need_set (pg s1)) (in_txn (pg s1)) HB1 Hin1) as Hq.
           unfold Quies in Hq. unfold flags. rewrite Hq. rewrite Hb2. reflexivity.
-      + intros _. rewrite Hb2. apply clean_bdef.
-    - split; [auto|]. split.
+      + intros Hc. rewrite Hb2. cbn [b_sess]. destruct (need_set (pg s1)) eqn:Ens; [apply clean_bdef|].
+        apply Hc1 in Hc. unfold CleanOK, flags in Hc. cbn [fst] in Hc. destruct (Hc Ens) as [Hx _]. exact Hx.
+    - apply orb_false_iff in En. destruct En as [En Ep].
+      split; [auto|]. split.
       + constructor; auto.
       + intros Hc. apply Hc1 in Hc. unfold CleanOK, flags in Hc. cbn [fst] in Hc. destruct (Hc En) as [Hx _]. exact Hx.
   Qed.
@@ -999,9 +1035,11 @@ Section World.
   Lemma release_spec : forall w c s sv cl oos lg,
     release valid bdefs w c s sv cl oos lg =
     mkW (upd (w_srv w) s (fst (checkin valid (bdefs s) sv))) (upd (w_cli w) c cl) (upd (w_owner w) s None) oos
-        (log_if (fst (snd (checkin valid (bdefs s) sv)) || snd (snd (checkin valid (bdefs s) sv)))
-                (EvClean s (fst (snd (checkin valid (bdefs s) sv))) (snd (snd (checkin valid (bdefs s) sv)))) lg).
-  Proof. intros. unfold release. destruct (checkin valid (bdefs s) sv) as [sv' [rb ra]]. reflexivity. Qed.
+        (log_if (fst (snd (checkin valid (bdefs s) sv)) || fst (snd (snd (checkin valid (bdefs s) sv)))
+                 || snd (snd (snd (checkin valid (bdefs s) sv))))
+                (EvClean s (fst (snd (checkin valid (bdefs s) sv))) (fst (snd (snd (checkin valid (bdefs s) sv))))
+                         (snd (snd (snd (checkin valid (bdefs s) sv))))) lg).
+  Proof. intros. unfold release. destruct (checkin valid (bdefs s) sv) as [sv' [rb [ra da]]]. reflexivity. Qed.
 
   Lemma inv_ext : forall w1 w2, (forall s, w_srv w1 s = w_srv w2 s) -> (forall c, w_cli w1 c = w_cli w2 c) ->
     (forall s, w_owner w1 s = w_owner w2 s) -> w_oos w1 = w_oos w2 -> w_log w1 = w_log w2 -> Inv w1 -> Inv w2.
@@ -1218,7 +1256,8 @@ Section World.
           - exists (w_srv w s). split; auto. split; [apply (inv_srv w HI)|].
             assert (Hu : is_unclean (pg (w_srv w s)) = false).
             { destruct (is_unclean (pg (w_srv w s))) eqn:E; auto. rewrite (Hhb _ E) in Hb. discriminate. }
-            unfold is_unclean in Hu. apply orb_false_iff in Hu. destruct Hu as [Hu1 Hu2].
+            unfold is_unclean in Hu. apply orb_false_iff in Hu. destruct Hu as [Hu _].
+            apply orb_false_iff in Hu. destruct Hu as [Hu1 Hu2].
             assert (Hti : b_txn (truth (w_srv w s)) = TI).
             { unfold Quies, flags in Hq. cbn [snd] in Hq. rewrite Hu1 in Hq.
               destruct (b_txn (truth (w_srv w s))); auto; discriminate. }
